@@ -31,12 +31,15 @@ def keepalive_roles(F):
                 guard.add(d)
             if len(tys) == 1 and tys[0].startswith("alloc::sync::Weak<") and boxed(tys[0]):
                 relall.add(d)
+        # a private newtype around the shared cell (`struct SharedValue<T>(Arc<UnsafeCell<T>>)`) is the cell under another name
+        cellnt = {d for d, a in F.adts.items() if a["crate"] == MQ and len(a["variants"]) == 1 and len(a["variants"][0]["fields"]) == 1 and
+                  a["variants"][0]["fields"][0]["ty"].startswith("alloc::sync::Arc<core::cell::UnsafeCell<")}
         for d, a in F.adts.items():
             if a["crate"] == MQ and len(a["variants"]) == 1:
                 tys = [f["ty"] for f in a["variants"][0]["fields"]]
-                if any("Arc<core::cell::UnsafeCell<" in t for t in tys) and any(t in guard for t in tys):
+                if any("Arc<core::cell::UnsafeCell<" in t or any(t == n_ or t.startswith(n_ + "<") for n_ in cellnt) for t in tys) and any(t in guard for t in tys):
                     owner.add(d)
-        c_ = {"guard": guard, "release_all": relall, "owner": owner}
+        c_ = {"guard": guard, "release_all": relall, "owner": owner, "cell_newtypes": cellnt}
         F._ka_roles = c_
     return c_
 
@@ -159,6 +162,14 @@ def run(ctx):
         ctx.check(not th, "R06.1", key + "#no-panicking-escape", loc(b), "destructor consults thread::panicking(): the entry would be lost while unwinding")
     # ------------------------------------------------------------------ R06.2
     cell_clones = [(b, c) for b in lib for c in b.calls() if c.is_trait_method("Clone", "clone") and "Arc<core::cell::UnsafeCell<" in (c.self_ty or "")]
+    # (a clone made inside a method of the cell's private newtype - `fn keep_alive(&self) -> Self` - happens where that method is called)
+    lifted = []
+    for b, c in cell_clones:
+        if b.impl and not b.impl.get("trait") and (b.impl.get("self_head") or {}).get("adt") in keepalive_roles(F)["cell_newtypes"]:
+            lifted += [(cs.body, cs) for cs in F.callers_of(b.path, crates=[MQ]) if cs.body in lib]
+        else:
+            lifted.append((b, c))
+    cell_clones = lifted
     ctx.check(len(cell_clones) == 1, "R06.2", MQ + "::keep_alive#cell-cloned-once", "", "the shared UnsafeCell Arc is cloned at %d sites (expected 1: into the guard closure): %s" % (
         len(cell_clones), [b.path for b, _ in cell_clones]))
     for b, c in cell_clones:
@@ -272,7 +283,9 @@ def run(ctx):
     for i in dm:
         for it in i["items"]:
             b = F.bodies.get((MQ, it.get("uid") or it["def"]))
-            if b and any(c.name == "get" and "UnsafeCell" in c.def_ for c in b.calls()):
+            if b and (any(c.name == "get" and "UnsafeCell" in c.def_ for c in b.calls()) or
+                      any(hb.impl and (hb.impl.get("self_head") or {}).get("adt") in KA["cell_newtypes"] and any(x.name == "get" and "UnsafeCell" in x.def_ for x in hb.calls())
+                          for c in b.calls() for hb in local_callee_bodies(F, c))):
                 cell_dm.append(i)
     ctx.check(len(cell_dm) == 1 and cell_dm[0]["self_head"]["adt"] in KA["owner"], "R06.4", MQ + "#only-owner-derefs-mut-to-cell", "",
               "mutable access to the shared cell is offered by %s" % [i["self_ty"] for i in cell_dm])
